@@ -153,13 +153,15 @@ class MarkovChainLevyCopula(LevyProcess):
                 ]
             ]
         ).T
-        V = 0.0 if self.model.jump_of_finite_variation() else 1.0
+        # each margin has been moved to the TILDE representation with the cut-off radius of ITS OWN variation regime
+        # (0 for finite variation, 1 otherwise): the first moment outside that radius is what its drift lacks
+        radii = [0.0 if model.jump_of_finite_variation() else 1.0 for model in models]
         mu_tilde = np.array(
             [
                 [
                     model.levy_triplet.nu.integrate_against_x(-np.inf, -V)
                     + model.levy_triplet.nu.integrate_against_x(V, np.inf)
-                    for model in models
+                    for model, V in zip(models, radii)
                 ]
             ]
         ).T
